@@ -35,7 +35,8 @@ func init() {
 		ID:    "R14.3",
 		Title: "malformed tunnelled requests reach an error return",
 		Text: "DecodeTunnelledQuery has a non-nil error return guarded by: a non-empty URL query with the override header; an empty query after the multipart loop; a nil body after the multipart loop (and that test is live: some path reaches it with req.Body nil); " +
-			"the default clause of the part-type switch; the default clause of the outer content-type switch; the multipart reader error.  ServeHTTP calls it before receive.",
+			"the multipart reader error.  Unknown content types are rejected, on the control flow graph: once the media type is parsed every successful exit lies on a path that compared it equal to a constant, and once a part's content type is read " +
+			"the loop continues or ends only on paths that compared it equal to a constant (switch with an error default and if/else chain alike).  ServeHTTP calls it before receive.",
 		Props: []string{"C14"},
 		Floor: map[string]int{"v2": 8, "root": 8},
 		Run:   runR143,
